@@ -33,6 +33,8 @@ Unannotated stretch at 8000 (both chromosomes).  Structures (each with a coverag
  C3 spliced polyA reads on chr3, a sequence without any annotated gene (scaffold, spike-in): their model is a novel gene in both GTFs
  E1 full-length polyA reads of T9 (gene G8), whose second and last exons are ONE base long, and reads of a novel isoform that skips
     T9's third exon but keeps the 1-bp second one: models with 1-bp exons are written like any other
+ K5 T1 reads with the complete intron chain that start 120+ bp inside the annotated first exon (the known isoform is reported with its
+    annotated coordinates, whatever the reads' ends)
  X3 full-length T1 reads whose FIRST intron is shifted as a whole by 10 bp (both sites; tolerated as intron_shift): next to K1 the same
     known isoform is supported by two different full-length paths of the intron graph - it is still reported once
  IP unannotated three-exon locus on chr3 with a long last exon (2101-2900): half of the reads are full-length, the other half are unspliced
@@ -49,7 +51,7 @@ import shutil
 
 from vlib import worlds as W
 
-STRUCTS = ["K1", "K2", "K4", "P1", "Q1", "N1", "N2", "N3", "X1", "X2", "M1", "A1", "G1", "S1", "V1", "W1", "V2", "H1", "H2", "Y0", "Y1", "I1", "I2", "F1", "F2", "Z1", "Z2", "S2", "J1", "NC", "MA", "H3", "W2", "LQ", "D1", "B9", "C3", "E1", "X3", "IP"]
+STRUCTS = ["K1", "K2", "K4", "P1", "Q1", "N1", "N2", "N3", "X1", "X2", "M1", "A1", "G1", "S1", "V1", "W1", "V2", "H1", "H2", "Y0", "Y1", "I1", "I2", "F1", "F2", "Z1", "Z2", "S2", "J1", "NC", "MA", "H3", "W2", "LQ", "D1", "B9", "C3", "E1", "X3", "IP", "K5"]
 NC_EXONS = [[6501, 6650], [6801, 6950], [7101, 7300]]
 # three unannotated loci inside gene G5 (+): two on '+' (in introns 1 and 3), one antisense spanning both (canonical for '-')
 J_PLUS_A = [[9321, 9420], [9521, 9620], [9681, 9780]]
@@ -63,7 +65,7 @@ G6_EXONS = [[4601, 4750], [4901, 5050], [5201, 5350], [5501, 5650], [6701, 6850]
 G5_EXONS = [[9001, 9300], [9801, 10000], [10601, 10800], [11401, 11700], [12501, 13000]]     # long last exon (500 bp)
 LEVELS = (1, 3, 12)
 # structures by the locus they live in (structures of different loci do not interact except through id numbering)
-LOCUS = {"G1": ["K1", "K2", "P1", "Q1", "N1", "N2", "N3", "X1", "X2", "A1", "S1", "V1", "I1", "I2", "D1", "X3"], "G2": ["K4"], "U1": ["M1"], "U2": ["G1"],
+LOCUS = {"G1": ["K1", "K2", "P1", "Q1", "N1", "N2", "N3", "X1", "X2", "A1", "S1", "V1", "I1", "I2", "D1", "X3", "K5"], "G2": ["K4"], "U1": ["M1"], "U2": ["G1"],
          "G5": ["W1", "V2", "J1", "W2"], "G6": ["H1", "H2", "F1", "F2", "H3"], "G11": ["Y0", "Y1"], "ZA": ["Z1"], "ZB": ["Z2"], "U3": ["S2"], "U4": ["NC"], "U5": ["MA"], "U6": ["LQ"], "U7": ["B9"], "U8": ["C3", "IP"], "G8": ["E1"]}
 LOCUS_OF = {st: loc for loc, sts in LOCUS.items() for st in sts}
 
@@ -93,6 +95,8 @@ def structure_reads(struct, level, tag):
             reads.append(W.read_of(nm, "chr1", E([0, 2, 3, 4])))
         elif struct == "K4":
             reads.append(W.read_of(nm, "chr2", E([0, 1, 2, 3]), strand="-"))
+        elif struct == "K5":       # T1 reads with the complete intron chain whose first exon starts 120+ bp inside the annotated one
+            reads.append(W.read_of(nm, "chr1", [slot(0, ds=120 + k)] + E([1, 2, 3, 4])))
         elif struct == "P1":
             reads.append(W.read_of(nm, "chr1", [slot(2, ds=40 + 3 * k)] + E([3, 4])))
         elif struct == "Q1":       # 3'-truncated T1 reads: deep coverage on the 5' half of the gene only
